@@ -14,7 +14,8 @@
    handles and gaps) without include_service<> (C04's finding), every (lo, hi), every type, every
    out_size >= 23 (every MTU), every state. *)
 From BT Require Import Base.ListX AttDb.AttDbModel AttDb.AttDbSpec AttDb.AttDbProofs AttDb.AttDbExamples NQueue.NQueueModel
-  AttSrv.AttSrvModel AttSrv.AttSrvSpecC02 AttSrv.AttSrvSpecC03 AttSrv.AttSrvProofsC02 AttSrv.AttSrvExamplesDisc.
+  AttSrv.AttSrvModel AttSrv.AttSrvSpecC02 AttSrv.AttSrvSpecC03 AttSrv.AttSrvProofsC02 AttSrv.AttSrvProofsC03
+  AttSrv.AttSrvProofsDiscMon AttSrv.AttSrvExamplesDisc.
 Local Open Scope N_scope.
 
 (* ---- (c), abstract: ANY responder that answers every lo..hi with a non-empty prefix of the in-range
@@ -77,6 +78,20 @@ Theorem C02_read_by_group_type_discover_all :
 Proof. exact rbg_discover_all. Qed.
 Print Assumptions C02_read_by_group_type_discover_all.
 
+(* maximality ("as far as fits"): the reported services W are followed, in [matching], by a service only if it
+   has another uuid size than the first or does not fit: (out_size - 2) - size * |W| < size, out_size being
+   min( buffer, negotiated MTU ) *)
+Theorem C02_read_by_group_type_maximal :
+  forall c lo hi out_size, wf c -> no_includes c -> 23 <= out_size ->
+    match walk_first (groups c) lo hi (out_size - 2) with
+    | [] => matching c KGroup lo hi = []
+    | g :: W =>
+        exists rest, matching c KGroup lo hi = map gentry ((g :: W) ++ rest)
+                     /\ rbg_stop_reason (is_128bit (s_uuid (snd g))) (out_size - 2) (g :: W) rest
+    end.
+Proof. exact rbg_maximal. Qed.
+Print Assumptions C02_read_by_group_type_maximal.
+
 (* ---- Find Information: (b) in full; (a) as far as it holds: the response holds the FIRST matching
    attribute, then a subsequence of the remaining ones (hence in range, with their types, ascending), and
    it is a prefix if the matching attributes all have the uuid format of the first; (c) if no attribute has
@@ -96,6 +111,28 @@ Theorem C02_find_information_partial :
     end.
 Proof. exact find_information_matching. Qed.
 Print Assumptions C02_find_information_partial.
+
+(* the response, completely: determined by the walk over the table from lo on *)
+Theorem C02_find_information_response :
+  forall c a0 a1 x0 x1 b out_size r,
+    wf c -> no_includes c -> a0 < 256 -> a1 < 256 -> x0 < 256 -> x1 < 256 ->
+    1 <= w16 a0 a1 -> w16 a0 a1 <= w16 x0 x1 -> 23 <= out_size -> out_size <= len b ->
+    handle_find_information c [4; a0; a1; x0; x1] b out_size = Some r ->
+    fi_response c (w16 a0 a1) (w16 x0 x1) a0 a1 out_size r.
+Proof. exact find_information_spec. Qed.
+Print Assumptions C02_find_information_response.
+
+(* maximality: Wk = the reported pairs (C02_find_information_partial's x :: R is this walk); among the
+   matching attributes of the uuid format of the first one, Wk is a prefix, and it ends in front of one of
+   them only if no further pair fits: (out_size - 2) - size * |Wk| < size *)
+Theorem C02_find_information_maximal :
+  forall c lo hi out_size x W, wf c -> no_includes c -> from_handle lo (table c) = x :: W ->
+    let Wk := fi_walk (x :: W) hi (is16 (snd x)) (out_size - 2) in
+    exists rest,
+      filter (fun y => Bool.eqb (is16 (snd x)) (is16 (snd y))) (matching c KInfo lo hi) = Wk ++ rest
+      /\ (rest <> [] -> out_size - 2 - fsize (is16 (snd x)) * len Wk < fsize (is16 (snd x))).
+Proof. exact fi_maximal. Qed.
+Print Assumptions C02_find_information_maximal.
 
 Theorem C02_find_information_discover_all_16bit :
   forall c out_size hi, wf c -> no_includes c -> 23 <= out_size ->
@@ -146,6 +183,24 @@ Theorem C02_read_by_type_not_found_if_none :
 Proof. exact read_by_type_not_found_if_none. Qed.
 Print Assumptions C02_read_by_type_not_found_if_none.
 
+(* the byte level statement for EVERY out_size: collect_attributes::size() is 8 bit wide, the response is cut to
+   2 + (|entry bytes| mod 256) bytes - the first bytes of the entry list (for out_size <= 257 nothing is cut:
+   C02_read_by_type_partial) *)
+Theorem C02_read_by_type_bytes :
+  forall c st cid a0 a1 x0 x1 tyb ty b out_size st' r,
+    wf c -> no_includes c -> a0 < 256 -> a1 < 256 -> x0 < 256 -> x1 < 256 ->
+    req_type tyb = Some ty -> ty <> U16 internal_128bit_uuid ->
+    1 <= w16 a0 a1 -> w16 a0 a1 <= w16 x0 x1 -> 23 <= out_size -> out_size <= len b ->
+    handle_read_by_type c st cid (8 :: a0 :: a1 :: x0 :: x1 :: tyb) b out_size = Some (st', r) ->
+    (snd r = 5 /\ seg 0 5 (fst r) = [1; 8; a0; a1; 10])
+    \/ (exists E sz, E <> [] /\ subseq (map fst E) (map fst (matching c (KType ty) (w16 a0 a1) (w16 x0 x1)))
+          /\ (forall x, In x E -> len (snd x) + 2 = sz)
+          /\ 2 + len (flat_map ebytes E) <= out_size
+          /\ snd r = 2 + len (flat_map ebytes E) mod 256 /\ snd r <= len (fst r)
+          /\ seg 0 (snd r) (fst r) = 9 :: sz :: firstn (N.to_nat (len (flat_map ebytes E) mod 256)) (flat_map ebytes E)).
+Proof. exact read_by_type_bytes. Qed.
+Print Assumptions C02_read_by_type_bytes.
+
 (* (b), the other direction, as far as the code supports it: if some matching attribute is readable in every
    state ([readable]: no encryption requirement, read access), the request is answered with a Read By Type
    Response, never with Attribute Not Found - in every reachable or unreachable state, for every out_size *)
@@ -183,6 +238,53 @@ Theorem C02_prefix_read_by_type_refuted :
      = Some (O, dt_prefix).
 Proof. split; [vm_compute; reflexivity|]. split; [eexists; vm_compute; reflexivity|vm_compute; reflexivity]. Qed.
 Print Assumptions C02_prefix_read_by_type_refuted.
+
+(* ---- the partial version of the monitor theorem. [c02_regular c] is an executable predicate on the
+   configuration under which neither skip finding can occur:
+     all_16bit     no attribute has a 128 bit type (uniform uuid format in every Find Information range)
+     rbt_regular   any two attributes of the same type have the same STATE INDEPENDENT value length
+                   (service / characteristic declarations, CCCDs, descriptors, fixed and string values;
+                   a bound variable or handler value only if its type occurs once)
+     max_mtu <= 257  the 8 bit collect_attributes::size() cannot cut a response
+   On such configurations the monitor (all clauses, incl. prefix_of_matching and enumerate_exact) accepts every
+   fault free trace of the model, of ANY length, from every state: requests of bytes, Read By Type for every type
+   but the internal marker 0x0001. (FAULT = C01 (a), proved only for requests that touch no attribute.) Proof for
+   Read By Type: loop invariant "the attributes of the type processed so far = P1 ++ P2, P1 covered exactly by
+   the collected handles up to non-readable ones, every element of P2 skipped for a reason that also blocks
+   every later attribute of the same static length". *)
+Theorem C02_monitor_accepts_model_partial :
+  forall c, wf c -> no_includes c -> c02_regular c = true ->
+    forall ops st, forallb op_bytes ops = true -> forallb no_marker_type ops = true ->
+      Forall (fun p => snd p <> OFault) (srv_run c st ops) ->
+      c02_monitor c (srv_run c st ops) = None.
+Proof.
+  intros c Hw Hn Hu ops st Hb Hr Hf. apply c02_monitor_accepts_regular; auto. apply mon_inv_init.
+Qed.
+Print Assumptions C02_monitor_accepts_model_partial.
+
+(* with 16 bit types only (value lengths arbitrary, any MTU): histories without Read By Type requests *)
+Theorem C02_monitor_accepts_model_partial_16bit :
+  forall c, wf c -> no_includes c -> all_16bit c = true ->
+    forall ops st, forallb op_bytes ops = true -> forallb no_read_by_type ops = true ->
+      Forall (fun p => snd p <> OFault) (srv_run c st ops) ->
+      c02_monitor c (srv_run c st ops) = None.
+Proof.
+  intros c Hw Hn Hu ops st Hb Hr Hf. apply c02_monitor_accepts; auto. apply mon_ok_init.
+Qed.
+Print Assumptions C02_monitor_accepts_model_partial_16bit.
+
+Example C02_regular_satisfiable :
+  wf cfg_priorities /\ no_includes cfg_priorities /\ c02_regular cfg_priorities = true
+  /\ wf cfg_cccd9 /\ no_includes cfg_cccd9 /\ c02_regular cfg_cccd9 = true
+  /\ all_16bit cfg_disc_uniform = true /\ c02_regular cfg_disc_uniform = false /\ c02_regular cfg_basic3 = false.
+Proof. repeat split; vm_compute; reflexivity. Qed.
+
+(* a session on a regular configuration: the model's trace is accepted (also by computation) *)
+Example C02_monitor_accepts_priorities :
+  c02_monitor cfg_priorities (srv_run cfg_priorities (srv_init cfg_priorities)
+    [OpIn O [8; 1; 0; 255; 255; 3; 40] 23; OpIn O [8; 9; 0; 255; 255; 3; 40] 23; OpIn O [4; 1; 0; 255; 255] 23;
+     OpIn 1 [16; 1; 0; 255; 255; 0; 40] 23; OpIn O [8; 1; 0; 255; 255; 2; 41] 23]) = None.
+Proof. vm_compute. reflexivity. Qed.
 
 (* ---- non-vacuity and witnesses of the repairs *)
 Example C02_wf_nonvacuous :
